@@ -882,7 +882,8 @@ func (s *State) writeAttr(attr *Attr, body *hclwrite.Body) error {
 			return err
 		}
 		// TODO(rotemtam): the func name should be decided on contextual basis.
-		fnc := fmt.Sprintf("sql(%q)", v.X)
+		// Escape the template sequences, as the expression is a quoted template.
+		fnc := fmt.Sprintf("sql(%s)", strings.NewReplacer("${", "$${", "%{", "%%{").Replace(strconv.Quote(v.X)))
 		body.SetAttributeRaw(attr.K, hclRawTokens(fnc))
 	case attr.V.Type().IsListType():
 		// Skip scanning nil slices ([]T(nil)) by default. Users that
